@@ -96,83 +96,52 @@ example : (applyOps (K := Int)
 theorem unrooted_preserves_tips [Add K] (t : PTree K) : tips (unrooted t) = tips t :=
   tips_unrooted t
 
-/- FULL STATEMENT (not proved, false for the code as written):
-   theorem unrooted_preserves_dist (t) (a b ∈ tips t) : distSpec d a b (unrooted t) = distSpec d a b t
-   The mirrored `unrooted` adds the removed stem edge's length to *every* child of the collapsed
-   clade (core/tree.py l.1575-1579), so pairs inside that clade get twice that length added.
-   Witness below; replayed on the real code by the harness (known finding
-   C09-unrooted-inflates-collapsed-clade). -/
-
-/-- the defect, on the smallest witness `((a:1,b:2):3,(c:4,d:5):6)`: d(a,b) = 3 becomes 9 -/
-theorem unrooted_dist_counter :
-    let t : PTree Int := .node "" none [.node "" (some 3) [.node "a" (some 1) [], .node "b" (some 2) []],
-                                         .node "" (some 6) [.node "c" (some 4) [], .node "d" (some 5) []]]
-    distSpec 1 "a" "b" t = 3 ∧ distSpec 1 "a" "b" (unrooted t) = 9 ∧ (tips t).Nodup := by
-  decide +kernel
-
-/-- `unrooted` does preserve all distances when it has nothing to collapse: the root already
-has ≥ 3 children, or all its children are tips (then the result is the same tree). -/
-theorem unrooted_preserves_dist_partial [AddCommMonoid K] (d : K) (t : PTree K)
-    (h : 3 ≤ t.children.length ∨ ∀ c ∈ t.children, c.children = []) (a b : String) :
-    distSpec d a b (unrooted t) = distSpec d a b t := by
-  rw [unrooted_noop t h]
-
-example : (3 : Nat) ≤ (PTree.node (K := Int) "" none [.node "a" (some 1) [], .node "b" (some 2) [],
-    .node "x" (some 1) [.node "c" (some 4) [], .node "d" (some 5) []]]).children.length := by decide
-
-/-- The proposed repair (`fixes/C09-unrooted-sister-edge.patch`, model `unrootedFixed`: the
-removed edge's length goes to the sister edge only) preserves every tip-to-tip distance, for
-every tree with distinct tips whose root children carry lengths. -/
-theorem unrooted_fixed_preserves_dist [AddCommMonoid K] (d : K) (t : PTree K) (hnd : (tips t).Nodup)
+/-- `unrooted` (core/tree.py as of commit 4e5465d45: the collapsed stem edge's length goes onto
+the sister edge) preserves every tip-to-tip path length — for every tree with distinct tips
+whose root children carry lengths.  (The earlier code added that length to every child of the
+collapsed clade: `((a:1,b:2):3,(c:4,d:5):6)` gave d(a,b) 3 → 9; that input is replayed on the
+implementation by every run as a regression witness.) -/
+theorem unrooted_preserves_dist [AddCommMonoid K] (d : K) (t : PTree K) (hnd : (tips t).Nodup)
     (hlen : ∀ c ∈ t.children, ∃ l, c.len = some l) (a b : String) (ha : a ∈ tips t) (hb : b ∈ tips t) :
-    distSpec d a b (unrootedFixed t) = distSpec d a b t :=
-  unrootedFixed_dist d t hnd hlen a b ha hb
+    distSpec d a b (unrooted t) = distSpec d a b t :=
+  unrooted_dist d t hnd hlen a b ha hb
 
 example :
     let t : PTree Int := .node "" none [.node "" (some 3) [.node "a" (some 1) [], .node "b" (some 2) []],
                                          .node "" (some 6) [.node "c" (some 4) [], .node "d" (some 5) []]]
-    distSpec 1 "a" "b" (unrootedFixed t) = 3 ∧ distSpec 1 "a" "c" (unrootedFixed t) = 14 ∧
+    (tips t).Nodup ∧ tips (unrooted t) = ["a", "b", "c", "d"] ∧
+      distSpec 1 "a" "b" (unrooted t) = 3 ∧ distSpec 1 "a" "c" (unrooted t) = 14 ∧
       distSpec 1 "a" "c" t = 14 := by decide +kernel
 
 /-! ## pruning to a subset of tips -/
 
-/- FULL STATEMENT (not proved, false for the code as written):
-   the conclusion below without hypothesis `hun`.  When the source root has > 2 children
-   `get_sub_tree` re-unroots its result with the defective `unrooted` (see above); witness
-   `subtree_dist_counter`, known finding C09-subtree-reunrooting-inflates-clade. -/
-
-/-- `get_sub_tree(names, tipsonly=True)` (any `ignore_missing`, `keep_root`): the result has
+/-- `get_sub_tree(names, tipsonly=True)` (any `ignore_missing`, `keep_root`; including the
+re-unrooting of the result when the source root has more than 2 children): the result has
 exactly the kept tips, in their original order, and every path length among kept tips is
-unchanged — single-child chains are merged by adding lengths.  For every tree whose non-root
-edges all have a length satisfying `P` (`P` closed under `+`, `¬ P 0`: e.g. "positive"; the
-code drops a merged length that sums to zero or has a missing part), with distinct tips.
-Explicit extra hypothesis `hun`: the source root has ≤ 2 children, or the repaired `unrooted` is used. -/
-theorem subtree_restricts_partial [AddCommMonoid K] [DecidableEq K] (P : K → Prop)
+unchanged — single-child chains are merged by adding lengths.  For every tree with distinct
+tips whose non-root edges all have a length satisfying `P` (`P` closed under `+`, `¬ P 0`: e.g.
+"positive"; the code drops a merged length that sums to zero or has a missing part). -/
+theorem subtree_restricts [AddCommMonoid K] [DecidableEq K] (P : K → Prop)
     (hadd : ∀ x y, P x → P y → P (x + y)) (h0 : ¬ P 0) (d : K)
-    (t : PTree K) (names : List String) (ignoreMissing keepRoot fixed : Bool) (r : PTree K)
-    (h : getSubTree t names ignoreMissing keepRoot true fixed = .ok r)
-    (hg : GoodLensL P t.children) (hnd : (tips t).Nodup)
-    (hun : t.children.length ≤ 2 ∨ fixed = true) :
+    (t : PTree K) (names : List String) (ignoreMissing keepRoot : Bool) (r : PTree K)
+    (h : getSubTree t names ignoreMissing keepRoot true = .ok r)
+    (hg : GoodLensL P t.children) (hnd : (tips t).Nodup) :
     tips r = (tips t).filter (fun x => names.contains x) ∧
       ∀ a b, names.contains a = true → names.contains b = true → a ∈ tips t → b ∈ tips t →
         distSpec d a b r = distSpec d a b t :=
-  getSubTree_spec P hadd h0 d t names ignoreMissing keepRoot fixed r h hg hnd hun
+  getSubTree_spec P hadd h0 d t names ignoreMissing keepRoot r h hg hnd
 
 example : GoodLensL (fun x : Int => 0 < x)
     (PTree.node "" none [.node "x" (some 3) [.node "a" (some 1) [], .node "b" (some 2) []], .node "c" (some 4) []]).children := by
   simp [GoodLensL, GoodLens]
-example : (getSubTree (K := Int)
-    (.node "" none [.node "x" (some 3) [.node "a" (some 1) [], .node "b" (some 2) [], .node "e" (some 7) []], .node "c" (some 4) []])
-    ["a", "c"] false false true).toOption.map tips = some ["a", "c"] := by decide +kernel
-
-/-- the defect reached through `get_sub_tree`: pruning `((a:1,b:2)x:3,c:4,d:5)` to a, b, c turns
-d(a,b) = 3 into 9 -/
-theorem subtree_dist_counter :
+-- a source root with 3 children: the result is re-unrooted, d(a,b) stays 3
+example :
     let t : PTree Int := .node "" none [.node "x" (some 3) [.node "a" (some 1) [], .node "b" (some 2) []],
                                          .node "c" (some 4) [], .node "d" (some 5) []]
-    distSpec 1 "a" "b" t = 3 ∧
-      (getSubTree t ["a", "b", "c"] false false true).toOption.map (distSpec 1 "a" "b") = some 9 ∧
-      (getSubTree t ["a", "b", "c"] false false true true).toOption.map (distSpec 1 "a" "b") = some 3 := by
+    (getSubTree t ["a", "b", "c"] false false true).toOption.map tips = some ["a", "b", "c"] ∧
+      (getSubTree t ["a", "b", "c"] false false true).toOption.map (distSpec 1 "a" "b") = some 3 ∧
+      (getSubTree t ["a", "b", "c"] false false true).toOption.map (distSpec 1 "a" "c") = some 8 ∧
+      distSpec 1 "a" "c" t = 8 := by
   decide +kernel
 
 /-! ## newick (token level) -/
